@@ -229,7 +229,7 @@ fn case(tier: Tier, rng: &mut Rng, rep: &mut Report) {
             return;
         }
     }
-    let mut qc = QueryCase { world, cut, query, alg: Alg::Dijkstra, od: Od::Vertex(0, None), reverse: false };
+    let mut qc = QueryCase { world, cut, query, alg: Alg::Dijkstra, od: Od::Vertex(0, None), reverse: false, via_files: rng.chance(0.2) };
     let si = match qc.build() {
         Ok(s) => s,
         Err(e) => {
